@@ -1363,6 +1363,10 @@ class Executor:
         sc = STD_CONSTS.get(text) or STD_CONSTS.get(text.replace('core::', 'std::'))
         if sc is not None:
             return mk_flt(sc[0], sc[1]), True
+        if text in ('std::time::UNIX_EPOCH', 'SystemTime::UNIX_EPOCH', 'std::time::SystemTime::UNIX_EPOCH', 'UNIX_EPOCH'):
+            return Struct('SystemTime', (Int('u64', 0), Int('u32', 0))), True
+        if text in ('Duration::ZERO', 'std::time::Duration::ZERO', 'core::time::Duration::ZERO'):
+            return Struct('Duration', (Int('u64', 0), Int('u32', 0))), True
         m = self._intconst_re.match(text)
         if m and m.group(1) in INT_TYPES:
             w, sg = INT_TYPES[m.group(1)]
